@@ -62,10 +62,11 @@ def slice_bits(an, st, v, frame, assign=None, joins=None):
     return out
 
 
-def transactions(prog, body, setup=None, max_depth=6, subst=None, shifts=None):
+def transactions(prog, body, setup=None, max_depth=6, subst=None, shifts=None, unroll=False):
     """[(kind, [byte bit lists], [payload byte bit lists] | None)] — one entry per distinct transaction shape"""
     an = absint_interp.new_analyzer(prog, max_depth=max_depth)
     rec = {}
+    an.unroll_concrete = unroll
     if shifts is not None:
         an.lossy_shifts = shifts
 
